@@ -330,6 +330,17 @@ func WorkDir() string {
 	return d
 }
 
+// ScratchDir creates a fresh directory under WorkDir (never under /tmp: a child that is
+// killed or exits on its own cannot run clean-ups, the driver wipes WorkDir instead).
+func ScratchDir(tb interface{ Cleanup(func()) }, name string) string {
+	d, err := os.MkdirTemp(WorkDir(), name+"-")
+	if err != nil {
+		panic(err)
+	}
+	tb.Cleanup(func() { os.RemoveAll(d) })
+	return d
+}
+
 // ReplayPath returns the replay file to run instead of generating, if any.
 func ReplayPath() string { return os.Getenv("VERIF_REPLAY") }
 
